@@ -87,16 +87,17 @@ type scenario struct {
 }
 
 type runner struct {
-	c     *vf.Ctx
-	sc    scenario
-	seed  uint64
-	rng   *rand.Rand
-	ch    *chainsim.Chain
-	ops   []*Op
-	prev  map[string]string
-	nInit int
-	nPid  int
-	stop  bool
+	c       *vf.Ctx
+	sc      scenario
+	seed    uint64
+	rng     *rand.Rand
+	ch      *chainsim.Chain
+	ops     []*Op
+	prev    map[string]string
+	nInit   int
+	nPid    int
+	stop    bool
+	sampled map[string]bool
 }
 
 var users = []string{"alice", "bob", "carol"}
@@ -113,9 +114,9 @@ func run(c *vf.Ctx) {
 		scen = []scenario{{"realms", "", 240}, {"realms", "", 240}, {"gov", "mini", 220}}
 	} else {
 		for i := 0; i < 6; i++ {
-			scen = append(scen, scenario{"realms", "", 700})
+			scen = append(scen, scenario{"realms", "", 2500})
 		}
-		scen = append(scen, scenario{"gov", "mini", 500}, scenario{"gov", "mini", 500}, scenario{"realgov", "real", 60})
+		scen = append(scen, scenario{"gov", "mini", 1800}, scenario{"gov", "mini", 1800}, scenario{"realgov", "real", 150})
 	}
 	c.Parallel(len(scen), 6, 1300, func(i int, rng *rand.Rand) {
 		r := &runner{c: c, sc: scen[i], seed: uint64(c.Seed)*100 + uint64(i), rng: rng}
@@ -648,6 +649,18 @@ func (r *runner) playOp(op *Op, idx int) {
 		}
 	}
 	r.prev = now
+	// samples: the first transaction of each kind on this chain
+	sk := op.Kind
+	if op.Kind == "set" && !contains(plainKeys, op.Key) {
+		sk = "set-hostile-ok=" + fmt.Sprint(tr.OK)
+	}
+	if r.sampled == nil {
+		r.sampled = map[string]bool{}
+	}
+	if !r.sampled[sk] && len(op.Key) < 200 {
+		r.sampled[sk] = true
+		c.Sample(map[string]any{"scenario": r.sc.name, "op": op})
+	}
 	// ---- per-kind clauses
 	switch op.Kind {
 	case "set", "set2":
